@@ -110,7 +110,9 @@ def _seq_spec(draw):
     insts = []
     dnets = [x[0] for x in nodes if x[0] != "clk"] or ["clk"]
     # instance names in an order that is neither sorted nor the creation order of their nets
-    fnames = draw(st.lists(st.sampled_from(["f0", "f1", "f2", "f10", "r2", "r10", "cnt1", "cnt0", "zreg", "areg"]),
+    # instance names live in their own namespace: they may equal the name of an io node
+    ionames = [x[0] for x in nodes if x[1] == "input" or x[3]]
+    fnames = draw(st.lists(st.sampled_from(["f0", "f1", "f2", "f10", "r2", "r10", "cnt1", "cnt0", "zreg", "areg"] + ionames[:4]),
                            min_size=nf, max_size=nf, unique=True))
     for f in range(nf):
         conns = {"clk": "clk", "d": draw(st.sampled_from(dnets))}
